@@ -19,6 +19,9 @@ COMMON_NOTE = ("Trusted: the harness's dense long-double reference, the choice-s
                "Exploration only: the property is shown to hold on the generated cases (counts in the evidence file), nothing is proved.")
 
 INFO = {
+    "C04": dict(level="exploration", assumptions=COMMON_ASSUME + ["structurally singular inputs run in a forked child with zero-filled fresh blocks while finding F-SS is open"], note=COMMON_NOTE,
+                technique="property-based testing (rapidcheck): generated structurally singular / exactly cancelling matrices; reference structural rank by augmenting paths, bounds-checked decoding of the leading block, exact 128-bit rank for small integers",
+                text="Singular inputs of every kind are generated and the return value, the leading factorization, the zero candidates and the untouched right-hand side are checked against reference computations; exploration is the right level because the property quantifies over all positions and numbers of deficient columns."),
     "C03": dict(level="exploration", assumptions=COMMON_ASSUME, note=COMMON_NOTE,
                 technique="property-based testing (rapidcheck) with a validity predicate over the returned SCformat/NCformat structures, ASan addressability of the implied lengths",
                 text="Generated factorizations (complete through ?gstrf/?gssvx, incomplete through ?gsisx) under extreme tunings are checked against a structural validity predicate; many correct outputs exist, so a predicate rather than an expected value is the oracle."),
@@ -35,7 +38,7 @@ INFO = {
 
 NOT_APPLICABLE = {}
 
-PROPS = ["C01", "C02", "C03", "C05"]
+PROPS = ["C01", "C02", "C03", "C04", "C05"]
 
 
 def all_props():
